@@ -53,7 +53,7 @@ R07.5 subPackages loads '<pkg>/...' and drops packages without Go files; during 
 	c.NotDecided = "what packages.Load returns for a pattern; regular-expression semantics; the value-level outcome for concrete configurations."
 	c.Assumptions = []string{"go/types object resolution", "regexp.MatchString(pattern, s) argument order as documented"}
 	c.Rule("R07.1", 8, "")
-	c.Rule("R07.2", 6, "")
+	c.Rule("R07.2", 7, "")
 	c.Rule("R07.3", 5, "")
 	c.Rule("R07.4", 2, "")
 	c.Rule("R07.5", 7, "")
@@ -212,7 +212,7 @@ func rangeOver(fd *ast.FuncDecl, marker string) *ast.RangeStmt {
 // rangeOverC matches on the rename-insensitive form of the ranged expression
 // (or on its type): locals are printed by definition, parameters by position.
 func rangeOverC(p *packages.Package, fd *ast.FuncDecl, marker string) *ast.RangeStmt {
-	fc := newFuncCanon(p.TypesInfo, fd)
+	fc := newFuncCanonG(p, fd)
 	return findRange(p.TypesInfo, fc, fd, func(rs *ast.RangeStmt, cx string, t types.Type) bool {
 		if marker == ".GetPackages<(config.RootConfig).GetPackages>(" && strings.Contains(cx, "ParsePackages") {
 			return false
@@ -255,7 +255,10 @@ func ruleR072(c *Ctx, r *Repo) {
 		return
 	}
 	d := newDT(info)
-	start := &dtPath{env: map[types.Object]string{}}
+	start := d.envBefore(seedEnv(d, pp), pp.Body.List, rs)
+	if v, ok := rs.Value.(*ast.Ident); ok {
+		start.env[info.Defs[v]] = "NAME"
+	}
 	d.paths = nil
 	d.stmts(start, rs.Body.List, func(p *dtPath) { d.finish(p, "end") })
 	nApp := 0
@@ -264,24 +267,47 @@ func ruleR072(c *Ctx, r *Repo) {
 			continue
 		}
 		nApp++
+		// the object looked up for this candidate in the package's scope
+		obj := ""
+		for _, a := range p.Atoms {
+			if e := stripRes(a.Expr); strings.HasSuffix(e, ".Types.Scope().Lookup(NAME) == nil") {
+				obj = strings.TrimSuffix(e, " == nil")
+			}
+		}
 		need := []struct {
-			sub  string
+			atom string
 			want bool
 			what string
 		}{
-			{" == nil", false, "the scope object is non-nil"},
-			{".(*types.Named)#ok", true, "the object's type is a *types.Named"},
-			{"go/types.IsInterface(", true, "types.IsInterface holds"},
+			{obj + " == nil", false, "the scope object is non-nil"},
+			{obj + ".Type().(*types.Named)#ok", true, "the object's type is a *types.Named"},
+			{"go/types.IsInterface(" + obj + ".Type())", true, "types.IsInterface holds"},
 		}
 		for _, n := range need {
-			v, ok := atomVal(p, n.sub)
+			v, ok := false, false
+			for _, a := range p.Atoms {
+				if stripRes(a.Expr) == n.atom {
+					v, ok = a.Val, true
+				}
+			}
 			key := "ParsePackages|append-guard|" + n.what
-			if ok && v == n.want {
+			if obj != "" && ok && v == n.want {
 				c.OK("R07.2", key, r.Pos(rs.Pos()), "candidate appended only when "+n.what)
 			} else {
-				c.Fail("R07.2", key, r.Pos(rs.Pos()), "a candidate is appended on a path that has not established that "+n.what+": "+p.String())
+				c.Fail("R07.2", key, r.Pos(rs.Pos()), "a candidate is appended on a path that has not established, for the object found under the candidate's own name in the package scope, that "+n.what+": "+p.String())
 			}
 		}
+		// the interface is recorded under the candidate's own name
+		okName := false
+		for _, call := range p.CallsTo("config.NewInterface") {
+			if len(call.Args) >= 1 {
+				switch stripRes(call.Args[0]) {
+				case "NAME", obj + ".Name()", obj + ".Type().(*types.Named).Obj().Name()":
+					okName = obj != ""
+				}
+			}
+		}
+		c.Check(okName, "R07.2", "ParsePackages|recorded-name", r.Pos(rs.Pos()), "the interface is recorded under the name of the declaration that was found", "the interface appended for a candidate is not recorded under that candidate's own name (the name of the type found in the scope): another type's mock is generated in its place or twice")
 	}
 	if nApp == 0 {
 		c.Fail("R07.2", "ParsePackages|no-append", r.Pos(rs.Pos()), "no path appends a candidate interface")
